@@ -95,6 +95,7 @@ func checkC06(p *Program, r *Report) {
 		}
 		calls := 0
 		other := ""
+		var tth *typeTerms
 		for _, b := range hh.Blocks {
 			for _, in := range b.Instrs {
 				c, ok := in.(*ssa.Call)
@@ -112,6 +113,13 @@ func checkC06(p *Program, r *Report) {
 						}
 					}
 					r.Check(decides, "C06.R2", pr.kind+"|"+f.Name()+" decides", p.Pos(c.Pos()), pr.what+" is decided by "+f.Name(), "the comparator's result does not decide "+pr.what)
+					if tth == nil {
+						tth = newTypeTerms(m, hh, nil)
+					}
+					for ai, a := range c.Call.Args {
+						why := impureOperand(tth, a, 0)
+						r.Check(why == "", "C06.R2", fmt.Sprintf("%s|%s argument %d is the operand itself", pr.kind, f.Name(), ai+1), p.Pos(c.Pos()), "an evaluated operand (or an element of it), only unwrapped", "the value compared is not the operand itself but "+why+": "+pr.what+" is no longer the == relation")
+					}
 				}
 				if o := calleeObj(c); o != nil && o.Pkg() != nil && o.Pkg().Path() == "reflect" && o.Name() == "DeepEqual" {
 					other = "reflect.DeepEqual"
@@ -119,8 +127,8 @@ func checkC06(p *Program, r *Report) {
 			}
 			for _, in := range b.Instrs {
 				if bo, ok := in.(*ssa.BinOp); ok && (bo.Op == token.EQL || bo.Op == token.NEQ) {
-					if types.IsInterface(bo.X.Type()) && !isErrorType(bo.X.Type()) && !isNilConst(bo.Y) && !isNilConst(bo.X) {
-						other = "== on interface values"
+					if fromInterfaceCall(bo.X) || fromInterfaceCall(bo.Y) {
+						other = "== on the Go values of the operands"
 					}
 				}
 			}
@@ -278,6 +286,56 @@ func checkC06(p *Program, r *Report) {
 			}
 		}
 		r.Check(diff == "", "C06.R7", f.Name()+"|string operand conversions", leafSite[0], "a string compared with a number is parsed by the same routines whichever side it is on: "+keysOf(leafSets[0]), "a string is parsed differently depending on its side ("+strings.TrimSpace(diff)+"): \"N\" == n and n == \"N\" disagree for some numeral")
+	}
+
+	// R8: every result of the comparator is one of: false, true for two nils, a comparison of the operands' numeric/bool/string
+	// readings by the package's conversion helpers, or reflect.DeepEqual of the two operands
+	if len(nilCalls) == 2 {
+		k := 0
+		for _, b := range f.Blocks {
+			ret, ok := b.Instrs[len(b.Instrs)-1].(*ssa.Return)
+			if !ok {
+				continue
+			}
+			k++
+			inst := fmt.Sprintf("%s|result #%d", f.Name(), k)
+			site := p.Pos(instrPos(ret))
+			switch x := ret.Results[0].(type) {
+			case *ssa.Const:
+				if x.Value != nil && x.Value.String() == "true" {
+					bad := false
+					for _, w := range [][2]bool{{false, false}, {true, false}, {false, true}} {
+						if worldReach(f, map[ssa.Value]bool{nilCalls[0]: w[0], nilCalls[1]: w[1]})[b] {
+							bad = true
+						}
+					}
+					r.Check(!bad, "C06.R8", inst, site, "constant true only for two nils", "the comparator answers true without comparing anything for operands that are not both nil")
+				} else {
+					r.OK("C06.R8", inst, site, "constant false")
+				}
+			case *ssa.BinOp:
+				good := x.Op == token.EQL && readingOf(m, f, x.X) && readingOf(m, f, x.Y)
+				r.Check(good, "C06.R8", inst, site, "equality of two readings of the operands", "the result is a comparison of something other than the operands' values (readings by the conversion helpers)")
+			case *ssa.Call:
+				o := calleeObj(x)
+				good := o != nil && isFuncNamed(o, "reflect", "", "DeepEqual") && len(x.Call.Args) == 2 && interfaceOfOperand(x.Call.Args[0]) && interfaceOfOperand(x.Call.Args[1])
+				r.Check(good, "C06.R8", inst, site, "reflect.DeepEqual of the two operands", "the result comes from a call other than reflect.DeepEqual on the two operands")
+			default:
+				// phi of the nil tests (`return l && r`) is handled by R3; anything else is unknown
+				ok := true
+				for _, w := range [][2]bool{{true, true}, {true, false}, {false, true}, {false, false}} {
+					wd := map[ssa.Value]bool{nilCalls[0]: w[0], nilCalls[1]: w[1]}
+					for _, st := range worldStates(f, wd) {
+						if st.b == b {
+							if _, known := worldEval(wd, ret.Results[0], st, 0); !known {
+								ok = false
+							}
+						}
+					}
+				}
+				r.Check(ok, "C06.R8", inst, site, "decided by the nil tests", "a result of unknown origin")
+			}
+		}
 	}
 
 	// R5: ParseInt bases
@@ -628,4 +686,81 @@ func keysOf(m map[string]bool) string {
 	}
 	sort.Strings(ks)
 	return strings.Join(ks, ", ")
+}
+
+// fromInterfaceCall: v is x.Interface() of a reflect.Value.
+func fromInterfaceCall(v ssa.Value) bool {
+	c, ok := v.(*ssa.Call)
+	return ok && reflectMethod(c) == "Interface"
+}
+
+// impureOperand: "" when v is the value left by an evaluation, only unwrapped (Elem) or indexed (Index); otherwise what else it went through.
+func impureOperand(tt *typeTerms, v ssa.Value, depth int) string {
+	if depth > 10 {
+		return "a value of unknown origin"
+	}
+	if u, ok := v.(*ssa.UnOp); ok && u.Op == token.MUL && tt.base != nil && tt.m.cellAddr(u.X, tt.base) == "rv" {
+		for d := range tt.before[u]["rv"] {
+			switch x := d.(type) {
+			case *ssa.Store:
+				if why := impureOperand(tt, x.Val, depth+1); why != "" {
+					return why
+				}
+			case *ssa.Call:
+				if tt.m.evalRole(x, tt.base) == "" {
+					return "the result of " + calleeName(x)
+				}
+			default:
+				return "the value the handler was entered with"
+			}
+		}
+		return ""
+	}
+	if sv := spilledValue(v); sv != nil {
+		return impureOperand(tt, sv, depth+1)
+	}
+	switch x := v.(type) {
+	case *ssa.Phi:
+		for _, e := range x.Edges {
+			if why := impureOperand(tt, e, depth+1); why != "" {
+				return why
+			}
+		}
+		return ""
+	case *ssa.Call:
+		switch reflectMethod(x) {
+		case "Elem", "Index":
+			return impureOperand(tt, x.Call.Args[0], depth+1)
+		}
+		return "the result of " + calleeName(x)
+	case *ssa.Extract:
+		if c, ok := x.Tuple.(*ssa.Call); ok {
+			return "the result of " + calleeName(c)
+		}
+	}
+	return "a value of unknown origin"
+}
+
+// readingOf: v is a reading of an operand by a helper of the package or a reflect accessor (toInt64(x), numToString(x), x.Bool(), result 0 of tryToBool(x) ...).
+func readingOf(m *vmModel, f *ssa.Function, v ssa.Value) bool {
+	if ex, ok := v.(*ssa.Extract); ok && ex.Index == 0 {
+		v = ex.Tuple
+	}
+	c, ok := v.(*ssa.Call)
+	if !ok || len(c.Call.Args) != 1 || !isReflectValue(c.Call.Args[0].Type()) {
+		return false
+	}
+	if callee := staticCallee(c); callee != nil && callee.Pkg == m.sp {
+		return true
+	}
+	switch reflectMethod(c) {
+	case "Int", "Uint", "Float", "Bool", "String":
+		return true
+	}
+	return false
+}
+
+func interfaceOfOperand(v ssa.Value) bool {
+	c, ok := v.(*ssa.Call)
+	return ok && reflectMethod(c) == "Interface"
 }
